@@ -152,7 +152,7 @@ def judge(case):
             contract = None
     else:
         contract = 0.0
-    if contract is not None and contract < 0.9:
+    if contract is not None and contract < case.get("contract_max", 0.9):
         judged_d = 1
         if not abs(yJ - ys) < case["precision"]:
             v.append(core.viol("C02/self_consistency", "composition of the returned fluxes %r differs from the permeate composition used %r by more than the precision %r (local contraction %.3g)" % (
@@ -200,6 +200,22 @@ def judge(case):
                        max_calls=out["calls"], sample={"J": J, "y_star": ys, "calls": out["calls"], "L": contract})
 
 
+def judge_slow(case):
+    """pressure mode a little below the pressure at which the iteration is a neutral 2-cycle (harvested as in C10): the map
+    contracts by 0.98-0.995 per evaluation, so a tight precision needs hundreds to thousands of evaluations - the stop
+    criterion still has to be honoured (smooth map, measured contraction < 0.995: |G(y) - y| < precision at the returned y)."""
+    from . import c10
+    mix = U.get_mixture(case["mixture"])
+    br = c10.marginal_pressure(mix, case["model"], case["T"], case["x"], case["P"])
+    if br is None:
+        return core.result("no-marginal-pressure", nontrivial=False)
+    sub = {k: case[k] for k in ("mixture", "model", "T", "x", "P", "precision")}
+    sub.update(mode=("p", br[0] * case["fraction"]), basis="weight", contract_max=0.995)
+    r = judge(sub)
+    r["outcome"] = "slow:" + r["outcome"]
+    return r
+
+
 def space(tier, seed):
     q = tier == "quick"
     alph = {
@@ -225,16 +241,24 @@ def main(tier, seed):
              "pattern of the returned flux pair",
         assumptions=["get_partial_pressures taken as given (judged by C04)",
                      "in pressure mode the permeate fractions may be mass or mole fractions (the statement does not fix it)",
-                     "(d) is judged only where the measured local contraction factor is < 0.9",
+                     "(d) is judged only where the measured local contraction factor is < 0.9 (< 0.995 in the slow_contraction space, whose map is linear fractional)",
                      "raising / non-converging cases are C10's business and only counted"],
         technique="bounded exhaustive enumeration of a finite input lattice with a harness-side seam on the fixed-point iteration")
     core.run_space(rep, space(tier, seed), judge)
+    q = tier == "quick"
+    slow = core.Space("slow_contraction", {
+        "mixture": ["H2O_EtOH", "S2"] if q else ["H2O_EtOH", "MeOH_DMC", "MeOH_Toluene", "S2"], "model": ["NRTL", "UNIQUAC"],
+        "T": core.lat([313.15, 333.15], seed)[:1] if q else core.lat([313.15, 333.15], seed), "x": core.lat([0.2, 0.5], seed) if q else core.lat([0.2, 0.5, 0.8], seed),
+        "P": [(1e-2, 1e-3), (1e-4, 1e-2)], "precision": [1e-8, 5e-5], "fraction": [0.9, 0.98, 0.99] if q else [0.9, 0.97, 0.98, 0.99, 0.993]},
+        lambda c: U.has_model(U.get_mixture(c["mixture"]), c["model"]))
+    core.run_space(rep, slow, judge_slow)
     return rep.finish()
 
 
 def replay(body):
-    r1 = judge(body["case"])
-    r2 = judge(body["case"])
+    fn = judge_slow if "fraction" in body["case"] else judge
+    r1 = fn(body["case"])
+    r2 = fn(body["case"])
     assert core.jsonable(r1["viol"]) == core.jsonable(r2["viol"]), "replay is not deterministic"
     for v in r1["viol"]:
         print("violation key=%s: %s" % (v["key"], v["msg"]))
